@@ -3,7 +3,11 @@
 import json, os
 V = "/verif"
 R_NOTE = "Trusts the Go reference model to state the property (it is ~100 lines written from the statement, not from the implementation) and the instrumented node lambdas to report executions faithfully; native goroutine scheduling is not controlled here (completion-order independence is C03's business); bounds as stated in the evidence rule."
+S_NOTE = "Trusts the source rewriter + vsched shim to model Go channel/select/mutex/once/atomic semantics; sequential consistency at synchronisation granularity (node bodies are atomic between explicit yields); happens-before state caching assumes the protocol code is data-race free (races are the business of the separate free-running -race pass); map iteration order restricted to ascending and descending (both explored)."
 checks = {
+ "C03": dict(engine="S", technique="stateless exhaustive interleaving exploration of real graph runs (executor goroutines vs run loop) under a controlled scheduler, iterative preemption bounding, both map orders",
+   text="For graph shapes with 2-3 concurrently runnable nodes (Pregel fan-out, DAG, eager Workflow, nested graphs), with yields, errors and panics in node bodies, every interleaving of the executor goroutines and the run loop within the preemption bound is executed on the real taskManager; result and executed set must equal the sequential model, every started node is collected exactly once, no hang, nothing left blocked. Right level: completion order is a schedule quantifier over a tiny hand-off protocol (1-slot channel + overflow list + mutex).",
+   note=S_NOTE, design="3/C03"),
  "C02": dict(engine="R", technique="explicit enumeration of all acyclic graph/workflow programs and all branch-outcome combinations within bounds against a readiness reference model; every model trace replayed on the implementation",
    text="All acyclic shapes up to renaming within the node/arc bounds, as all-predecessor Graph and as Workflow with every assignment of dependency kinds (normal, control-only, data-only), with single/multi branches, pass-through and nested variants, under all combinations of branch outcomes, are replayed with Invoke and Stream; executed set, at-most-once, per-node inputs and result must equal the model's. Right level: readiness bookkeeping is deterministic logic over a small finite state space.",
    note=R_NOTE, design="3/C02"),
